@@ -3,6 +3,25 @@ package main
 // Per-property driver configuration. rule/assumptions go verbatim into the
 // evidence file; the counts next to them are measured by the test processes.
 var props = map[string]propCfg{
+	"C06": {
+		rule: "pairs of string-producing step sequences (operator trees of depth <= 4 in SSA form) constructed so that the strref reference value of both final steps is the same UTF-16 sequence; tree B is tree A with independently chosen leaf origins (literal styles, fromCharCode/fromCodePoint, Go string via vm.Set, JSON.parse, unescape, decodeURIComponent, NFKC of fullwidth text) plus value-preserving route edits; a case is non-trivial when the common value is non-empty and the step values of the case were held in at least two different internal representations (ascii / utf16 / imported-unscanned / imported-ascii / imported-utf16, read with the VerifStrRepr hook); normalize sub-check: non-trivial when the operand is non-empty and non-ASCII; distinct = FNV-64 of the Go bindings and all step sources",
+		assumptions: []string{
+			"strref (harness/internal/strref) implements the ECMA-262 String algorithms on code units correctly; case mapping is modelled only on a closed alphabet (ASCII, Latin-1, Greek/Cyrillic basic letters, Deseret, a few special-cased letters) and U+03A3 is never lower-cased (Final_Sigma context)",
+			"normalize is judged only by UAX #15 invariants (idempotence, NFC(NFD(s))=NFC(s) etc.), ASCII identity, inertness of ASCII/CJK ideographs/emoticons/unpaired surrogates and the fullwidth->ASCII compatibility mappings; no normalisation tables are used",
+			"JSON.parse of unpaired surrogates is excluded (README: documented incompatibility); Go strings cannot carry unpaired surrogates, the documented lossy direction (U+FFFD) is checked on Export/ExportTo/String only",
+			"the escaped-literal RegExp arguments contain no U+FFFF (known regexp2 library defect, kept visible by a fixed probe)",
+		},
+	},
+	"C19": {
+		rule: "JSON texts drawn from an ECMA-404 grammar generator and single-edit corruptions of them, judged against an independent recogniser/parser (internal/jsonref); JSON.stringify on generated values x replacer x space x toJSON placement judged against a model of SerializeJSONProperty/Object/Array/QuoteJSONString; revivers from a fixed catalogue against a model of InternalizeJSONProperty; the laws parse(stringify(v)) = v, stringify(parse(t)) = canonical(t), MarshalJSON = stringify. A case is non-trivial when the text/value has nesting >= 2, or a number outside the safe-integer range (incl. -0, fractions, non-finite), or an escape / non-ASCII character; corruptions always count; revive cases count when the text contains a container. distinct = FNV-64 of the text's code units (plus reviver) or of the serialised case",
+		assumptions: []string{
+			"math/big rational arithmetic and strconv's shortest-digit formatting (used for Number::toString in the model) are correct; encoding/json is used only to store cases, never as an oracle",
+			"for number literals with more than 20 significant digits the three values permitted by ECMA-262 RoundMVResult are accepted",
+			"lone surrogates (escaped or raw) in JSON.parse input are excluded by construction and counted (README: documented incompatibility)",
+			"toJSON methods, replacer functions and revivers come from a fixed catalogue (jsonref.DumpJS FN) that is modelled exactly; Date values from a fixed list",
+			"when JSON.stringify(o) is undefined, (*Object).MarshalJSON is expected to return null (value.go)",
+		},
+	},
 	"C02": {
 		rule: "closed programs in the subset J0 (var/let/const with shadowing, closures, arrows, default/rest/destructuring parameters, arguments, all loop kinds with per-iteration bindings, switch, labels, try/catch/finally, getters/setters, classes with super, compound/logical assignment and update operators on every reference kind, direct eval, with, generators) in strict/sloppy mode and global/function/eval placement; (b) definitional oracle: log sequence, completion value and exception must equal the environment-record interpreter refjs; (a) metamorphic oracle: 1-3 rewrites from {constant->variable, closure capture of every identifier, dynamic scope via if(false)eval(''), dead code, function -> eval of its own source, block wrap} must not change the observation; non-trivial = the program logged or threw (definitional) or a rewrite changed the multiset of bytecode instruction types (VerifDumpTypes); distinct = FNV-64 of printed source + mode + rewrites",
 		assumptions: []string{
